@@ -775,6 +775,8 @@ class TdmsChannel(object):
             stop = self._length + stop
 
         # Check for empty ranges
+        if step > 0 and start < 0:
+            start = 0
         if stop == start:
             return np.empty((0, ), dtype=self.dtype)
         if step > 0 and (stop < start or start >= self._length or stop < 0):
